@@ -37,7 +37,7 @@ ASSUMPTIONS = ['the scripts are run with the tree under test first on PYTHONPATH
                'md5-cache}) exist: without them it exits non-zero (loud, not wrong)', 'names without whitespace or backslashes; distfiles/'
                'local/packages absent when the scripts run']
 CALLCOUNT = True
-N = {'quick': 60, 'thorough': 2500}
+N = {'quick': 150, 'thorough': 3000}
 PER_UNIT = 3
 H = ['BLAKE2B', 'SHA512']
 
